@@ -8,6 +8,8 @@ import (
 	"go/token"
 	"go/types"
 	"strings"
+
+	"golang.org/x/tools/go/ssa"
 )
 
 type SpecCtx struct {
@@ -293,6 +295,14 @@ func (c *SpecCtx) ident(name string) *Val {
 			st := c.state()
 			if t, ok := st.Cells[cell]; ok {
 				return &Val{T: t, GT: cell.Type}
+			}
+		}
+		// local arrays (kept in the element heap): the name denotes the pointer to the array
+		for v, r := range c.Fr.Regs {
+			if a, ok := v.(*ssa.Alloc); ok && a.Comment == name && r.T != nil {
+				if _, isArr := deref(a.Type()).Underlying().(*types.Array); isArr {
+					return &Val{T: r.T, GT: a.Type()}
+				}
 			}
 		}
 		// free variables of a closure: captured cells
@@ -601,6 +611,13 @@ func (c *SpecCtx) call(e *SExpr) *Val {
 	case "off":
 		x := c.eval(e.Args[0])
 		return &Val{T: ts.Sel(x.T, 1), GT: intT}
+	case "elemabs":
+		// elemabs(s, j): element at absolute index j of the backing array of slice s
+		x := c.eval(e.Args[0])
+		j := c.eval(e.Args[1])
+		el := sliceElem(x.GT)
+		n, hs := X.E.ElemHeap(el)
+		return &Val{T: ts.Select(ts.Select(X.heap(c.state(), n, hs), ts.Sel(x.T, 0)), j.T), GT: el}
 	case "fresh":
 		// allocated during the call: not allocated in the old state, non-nil
 		x := c.eval(e.Args[0])
